@@ -1,6 +1,6 @@
 #!/usr/bin/env python3
 """Zero-alarm soak on the unchanged tree: every check, several VERIF_SEED values, repeated (address
-space layout differs from process to process). Usage: python3 soak.py [seeds] [repeats] [props...]"""
+space layout differs from process to process). Usage: python3 soak.py [seeds] [repeats] [props...]   (VERIF_SOAK_FROM=<n>: first seed)"""
 import os, subprocess, sys
 ROOT = os.path.dirname(os.path.abspath(__file__))
 seeds = int(sys.argv[1]) if len(sys.argv) > 1 else 6
@@ -8,7 +8,7 @@ reps = int(sys.argv[2]) if len(sys.argv) > 2 else 2
 props = sys.argv[3:] or ["C10", "C09", "C18"]
 bad = 0
 for rep in range(reps):
-    for seed in range(1, seeds + 1):
+    for seed in range(int(os.environ.get("VERIF_SOAK_FROM", "1")), int(os.environ.get("VERIF_SOAK_FROM", "1")) + seeds):
         for p in props:
             env = dict(os.environ, VERIF_SEED=str(seed))
             r = subprocess.run(["python3", "verif.py", "check", p, "--tier", "quick"], cwd=ROOT, env=env, stdout=subprocess.PIPE, stderr=subprocess.STDOUT, text=True)
